@@ -1,7 +1,7 @@
 #!/venv/bin/python
 """Confirm a sub-agent's seeded defect and keep it under /verif/seeded/<id>/.
 
-usage: tools/intake_seeded.py <out-dir> <Cxx> <mN>
+usage: tools/intake_seeded.py <out-dir> <Cxx|auto> <mN> [dest-id]   (auto: property from <mN>.json)
 Checks, on scratch copies of /repo's working tree: the patch applies; the pinned tests that pass on the
 unchanged tree still pass with it; the demonstration fails with it and passes without it.
 """
@@ -41,6 +41,9 @@ def main():
     patch = os.path.join(outdir, mn + ".diff")
     demo = os.path.join(outdir, mn + "_demo.py")
     meta = json.load(open(os.path.join(outdir, mn + ".json")))
+    if pid == "auto":
+        pid = meta["property"]
+    dest_id = sys.argv[4] if len(sys.argv) > 4 else "%s-%s" % (pid, mn)
     clean = copy_repo()
     mut = copy_repo()
     try:
@@ -60,12 +63,13 @@ def main():
         if not ok:
             print(out_c[-500:], out_m[-500:])
             return 1
-        dest = os.path.join(ROOT, "seeded", "%s-%s" % (pid, mn))
+        dest = os.path.join(ROOT, "seeded", dest_id)
         os.makedirs(dest, exist_ok=True)
         shutil.copy(patch, os.path.join(dest, "patch.diff"))
         shutil.copy(demo, os.path.join(dest, "demo.py"))
         meta_out = {
             "property": pid,
+            "also_breaks": meta.get("also_breaks"),
             "summary": meta.get("summary"),
             "needs": meta.get("needs"),
             "files": meta.get("files"),
